@@ -317,6 +317,36 @@ macro_rules! transcript_buf {
         b.clear();
         b.push($a);
         $t.push(format!("clear-push {}", show(&b, w)));
+        // the capacity operations, step by step (every family wraps one `Vec<u8>` / `String`, so the
+        // capacities are the same numbers), and the fallible ones with requests that cannot be met
+        {
+            let mut b = orig.clone();
+            b.shrink_to_fit();
+            let len0 = b.capacity();
+            let mut caps: Vec<String> = Vec::new();
+            macro_rules! cap {
+                ($what:expr) => {
+                    caps.push(format!("{}={}", $what, b.capacity() as isize - len0 as isize))
+                };
+            }
+            let r = b.try_reserve_exact(1).is_ok();
+            cap!(if r { "try_reserve_exact(1)" } else { "try_reserve_exact(1)!" });
+            b.reserve_exact(5);
+            cap!("reserve_exact(5)");
+            let r = b.try_reserve(9).is_ok();
+            cap!(if r { "try_reserve(9)" } else { "try_reserve(9)!" });
+            b.reserve(70);
+            cap!("reserve(70)");
+            b.shrink_to(len0 + 33);
+            cap!("shrink_to(+33)");
+            let r = b.try_reserve_exact(40).is_ok();
+            cap!(if r { "try_reserve_exact(40)" } else { "try_reserve_exact(40)!" });
+            b.shrink_to_fit();
+            cap!("shrink_to_fit");
+            let huge = [usize::MAX, usize::MAX / 2, usize::MAX / 2 + 1, (isize::MAX as usize) - len0];
+            let refused: Vec<bool> = huge.iter().flat_map(|n| [b.try_reserve(*n).is_err(), b.try_reserve_exact(*n).is_err()]).collect();
+            $t.push(format!("capacity {} huge-requests-refused={:?} {}", caps.join(" "), refused, if show(&b, w) == show(&orig, w) { "unchanged".to_string() } else { show(&b, w) }));
+        }
         // the read-only methods and the conversions called on the OWNED type (typed buffers have
         // their own implementations; concrete buffers reach the path's through Deref)
         let b = orig.clone();
